@@ -101,8 +101,11 @@ fn check_pair(a: &Content, b: &Content, ia: &[u64], ib: &[u64]) -> Result<(u32, 
     if far && sab != 0 {
         return Err(format!("block sizes differ by more than a factor of two but score = {}", sab));
     }
-    let ta = FuzzyHashCompareTarget::from(&la);
-    let tb = FuzzyHashCompareTarget::from(&lb);
+    // the targets are re-used objects: each held the other hash first
+    let mut ta = FuzzyHashCompareTarget::from(&lb);
+    guarded(|| ta.init_from(&la))?;
+    let mut tb = FuzzyHashCompareTarget::from(&la);
+    guarded(|| tb.init_from(&lb))?;
     let cand = guarded(|| ta.is_comparison_candidate(&lb))?;
     let cand_rev = guarded(|| tb.is_comparison_candidate(&la))?;
     if cand != cand_rev {
